@@ -239,3 +239,13 @@ package api
 //@   modifies @PUBLISH, outmisc, world, held, @NTLOG
 //@ iface api.EntityLocalInterface.RemoveAllBindings
 //@   modifies @PUBLISH, outmisc, world, held, @NTLOG
+
+// inbound dispatch (C13): prn responses handed to a sender's de-duplication cache so far (sender, reference)
+//@ ghost prn int
+//@ ghost prsender map[int]any
+//@ ghost prref map[int]*model.MsgCounterType
+//@ iface api.SenderInterface.ProcessResponseForMsgCounterReference
+//@   ensures prn == old(prn) + 1 && prsender == store(old(prsender), old(prn), self) && prref == store(old(prref), old(prn), msgCounterRef)
+//@   modifies prn, prsender, prref, held, map(gomap[model.MsgCounterType]string)
+//@ iface api.DeviceLocalInterface.ProcessCmd
+//@   modifies @RESP, @PUBLISH, @WRITE, world, held, spawn, hmn, sendfails, map(gomap[model.MsgCounterType]string), @SETLOG
